@@ -192,7 +192,8 @@ def main():
         with open(OUT, "a") as f:
             for m in ms:
                 r = old.get(m["id"])
-                if not r or r["status"] not in ("killed-by-repo-tests", "no-build"):
+                keep = (arg("--reuse-status") or "killed-by-repo-tests,no-build").split(",")
+                if not r or r["status"].split("(")[0] not in keep:
                     continue
                 same = subprocess.run(["git", "-C", "/repo", "diff", "--quiet", base, head, "--", m["file"]]).returncode == 0
                 if same and r["old"] == m["old"] and r["new"] == m["new"]:
